@@ -317,9 +317,37 @@ func rulePoolReset(r *Run) {
 					}
 				}
 			}
+			// a Get through an accessor that already hands out (*bp)[:0]: its dereferences count too
+			if _, accReset, accDeref := p.accessorSlices(g); accDeref > 0 {
+				good = good && accReset
+				nuse += accDeref
+			}
 			r.check(good && nuse > 0, key, g.call.Pos(), "the pooled slice is only ever read as (*bp)[:0]", "the contents of a pooled byte slice are read without resetting its length to 0: bytes of an earlier request are visible")
 		case ts == "*bytes.Buffer":
-			if p.resetDominatesUses(v, "(*bytes.Buffer).Reset", g.fn) {
+			accResets := false
+			if g.raw != nil && g.raw != g.call {
+				// the accessor empties the buffer before handing it out (func getBuffer() *bytes.Buffer { b := pool.Get()…; b.Reset(); return b })
+				if rv, _ := gotValueRaw(g.raw); rv != nil {
+					accResets = true
+					found := false
+					eachInstr(g.raw.Parent(), func(in ssa.Instruction) {
+						if rt, ok := in.(*ssa.Return); ok {
+							dom := false
+							for _, use := range p.usesThroughCells(rv) {
+								if c, ok := use.(ssa.CallInstruction); ok && calleeName(c) == "(*bytes.Buffer).Reset" && instrDominates(use, rt) {
+									dom = true
+								}
+							}
+							found = true
+							accResets = accResets && dom
+						}
+					})
+					accResets = accResets && found
+				}
+			}
+			if accResets {
+				r.ok(key, g.call.Pos(), "the accessor that takes the buffer from the pool Resets it before returning it")
+			} else if p.resetDominatesUses(v, "(*bytes.Buffer).Reset", g.fn) {
 				r.ok(key, g.call.Pos(), "buf.Reset() precedes every other use")
 			} else if bad := p.putWithoutReset(g.pool, "(*bytes.Buffer).Reset"); bad == "" {
 				// the other discipline: whoever puts a buffer back empties it first
@@ -350,6 +378,64 @@ func rulePoolReset(r *Run) {
 			r.check(good, key, g.call.Pos(), "the pooled "+ts+" is Reset onto the new stream before it is handed out", "a pooled "+ts+" is handed out without Reset: it still reads/writes the previous request's stream")
 		}
 	}
+}
+
+// accessorSlices: for a Get made through an accessor that hands out more than the box (func getBytes() (bp *[]byte,
+// b []byte) { bp = pool.Get().(*[]byte); return bp, (*bp)[:0] }): the results of the accessor call, at the call
+// site, that are slices of the pooled memory on every return; and whether every dereference of the box inside the
+// accessor is resliced to length 0.
+func (p *Program) accessorSlices(g poolSite) (vals []ssa.Value, allReset bool, nDeref int) {
+	allReset = true
+	if g.raw == nil || g.raw == g.call {
+		return nil, true, 0
+	}
+	acc := g.raw.Parent()
+	rv, _ := gotValueRaw(g.raw)
+	if rv == nil {
+		return nil, false, 0
+	}
+	derived := map[ssa.Value]bool{}
+	for _, use := range p.usesThroughCells(rv) {
+		u, ok := use.(*ssa.UnOp)
+		if !ok || u.Op != token.MUL {
+			continue
+		}
+		for _, ref := range *u.Referrers() {
+			nDeref++
+			sl, ok := ref.(*ssa.Slice)
+			if !ok {
+				allReset = false
+				continue
+			}
+			derived[sl] = true
+			if k, isC := constInt(sl.High); sl.High == nil || !isC || k != 0 {
+				allReset = false
+			}
+		}
+	}
+	call, ok := g.call.(*ssa.Call)
+	if !ok || call.Referrers() == nil {
+		return nil, allReset, nDeref
+	}
+	for _, ref := range *call.Referrers() {
+		ex, ok := ref.(*ssa.Extract)
+		if !ok || ex.Index == 0 {
+			continue
+		}
+		all, n := true, 0
+		for _, rvv := range returnsOf(acc, ex.Index) {
+			n++
+			for _, o := range p.origins(rvv, originOpts{local: true}) {
+				if !derived[o] {
+					all = false
+				}
+			}
+		}
+		if all && n > 0 {
+			vals = append(vals, ex)
+		}
+	}
+	return vals, allReset, nDeref
 }
 
 // putWithoutReset: a Put into the named pool that is not preceded by a call of reset on the value put (in the
@@ -826,6 +912,10 @@ func rulePoolEscape(r *Run) {
 					}
 				}
 			}
+		}
+		if ts == "*[]byte" {
+			accVals, _, _ := p.accessorSlices(g)
+			seeds = append(seeds, accVals...)
 		}
 		if ts == "*bytes.Buffer" {
 			// the buffer object itself must not be stored or returned
